@@ -589,7 +589,7 @@ class RechunkPlanPairs(FuncSpec):
     def setup(self, c):
         nd = c.cfg["ndim"]
         c.spec_obj = make_spec(c)
-        x = sym_array(c, "x", nd, spec=c.spec_obj)
+        x = sym_array(c, "x", nd, spec=c.spec_obj, min_extent=1)  # zero-size arrays return before planning
         tgt = tuple(c.int(f"tgt{i}", lo=1) for i in range(nd))
         for t, n in zip(tgt, x.shape):
             c.assume(t <= n)
